@@ -1,5 +1,5 @@
 (* Fleet/Model.v — several instances and a bucket, at the level of logical content:
-   a store maps a key (DBI + key bytes) to an optional version; Write / Upload / Merge in any order,
+   a store maps a key (DBI + key bytes) to an optional version; Write / Upload / Merge / Reset (an instance's LMDB lost or rolled back) in any order,
    merges of ANY uploaded snapshot (not necessarily the newest), any number of instances.
    The per-DBI, byte-level counterparts of Merge (load) and Upload (dump) are tied to this level by
    Fleet/Refine.v. Ghost: the list of all versions ever written, per instance. *)
@@ -37,16 +37,23 @@ Section Fleet.
   Definition upd_inst (f : nat -> store) (i : nat) (s : store) : nat -> store :=
     fun j => if Nat.eq_dec i j then s else f j.
 
+  Definition written_k (s : sys) (k : K) (v : ver) : Prop := exists i, In (i, k, v) (written s).
+
   Inductive fstep : sys -> sys -> Prop :=
   | f_write s i k v :                     (* the application on instance i writes version v for key k;
                                              per key per instance the application is monotone *)
       ole (st s i k) (Some v) ->
       fstep s (mkSys (upd_inst (st s) i (upd (st s i) k (Some v))) (snaps s) ((i, k, v) :: written s))
   | f_upload s i :
-      fstep s (mkSys (st s) ((i, st s i) :: snaps s) (written s))
+      fstep s (mkSys (st s) (snaps s ++ [(i, st s i)]) (written s))    (* upload order *)
   | f_merge s i x :                       (* instance i merges ANY snapshot uploaded so far *)
       In x (snaps s) ->
-      fstep s (mkSys (upd_inst (st s) i (fun k => ojoin2 (st s i k) (snd x k))) (snaps s) (written s)).
+      fstep s (mkSys (upd_inst (st s) i (fun k => ojoin2 (st s i k) (snd x k))) (snaps s) (written s))
+  | f_reset s i g :                       (* instance i's LMDB is lost or rolled back while Lightning Stream is down:
+                                             it restarts under the same name with ANY content made of versions that
+                                             were written somewhere (empty, an old backup, ...); the bucket is untouched *)
+      (forall k, match g k with None => True | Some v => written_k s k v end) ->
+      fstep s (mkSys (upd_inst (st s) i g) (snaps s) (written s)).
 
   Inductive freach (s0 : sys) : sys -> Prop :=
   | fr_init : freach s0 s0
@@ -54,13 +61,14 @@ Section Fleet.
 
   Definition finit : sys := mkSys (fun _ _ => None) [] [].
 
-  Definition written_k (s : sys) (k : K) (v : ver) : Prop := exists i, In (i, k, v) (written s).
-
-  (* quiescence, in terms of what the property says: every instance's newest snapshot was taken after its last
-     local write (it contains every version written there), and every instance has merged such a snapshot of
-     every instance *)
-  Definition quiescent (s : sys) : Prop :=
-    forall i j, exists x, In x (snaps s) /\ fst x = j /\
+  (* quiescence, in terms of what the property says, for a fleet of n instances (numbered 0..n-1; nobody else
+     ever wrote): every instance's newest snapshot was taken after its last local write (it contains every
+     version written there — after a reset this means the instance merged its own old snapshot back before
+     uploading, which is what C05 guarantees of the real loop), and every instance has merged such a snapshot
+     of every instance *)
+  Definition quiescent (n : nat) (s : sys) : Prop :=
+    (forall j k v, In (j, k, v) (written s) -> (j < n)%nat) /\
+    forall i j, (i < n)%nat -> (j < n)%nat -> exists x, In x (snaps s) /\ fst x = j /\
       (forall k v, In (j, k, v) (written s) -> ole (Some v) (snd x k)) /\
       (forall k, ole (snd x k) (st s i k)).
 End Fleet.
